@@ -263,7 +263,9 @@ struct smoothed_aggr_emin {
             }
 
             for(size_t i = 0, m = omega.size(); i < m; ++i)
-                omega[i] = math::inverse(denum[i]) * omega[i];
+                // A zero column of Af * P_tent (an aggregate that is a whole
+                // connected component with zero row sums) needs no smoothing.
+                omega[i] = math::is_zero(denum[i]) ? math::zero<Val>() : math::inverse(denum[i]) * omega[i];
 
             // Update AP to obtain P: P = (P_tent - D^-1 A P Omega)
             /*
